@@ -638,6 +638,223 @@ def r4_mmr(ctx, F):
         ctx.violation("mmr-add", ploc("add"), "mmr::add: " + bad)
 
 
+# ---- R5: pipe_* procedures, hash_memory_even, mmr::pack / unpack ------------------------------------------------------------------
+NATIVE = "/repo/stdlib/asm/crypto/hashes/native.masm"
+
+
+def r5_pipes(ctx, F):
+    from . import mmrflow
+    from .mmrflow import PipeFlow, TermFlow, tev, Fail
+    deep = lambda a, b: [("deep", i) for i in range(a, b)]
+    IN = lambda n: ("in", n)
+
+    def val(x, env):
+        try:
+            return tev(x, env) if not (isinstance(x, tuple) and x[0] in ("f", "deep")) else x
+        except (Undecided, Fail, KeyError):
+            return x
+    decided = set()
+    # -- (a) the two absorbing loops
+    for path, name, op, has_suffix in ((MEM, "pipe_double_words_to_memory", "adv_pipe", True), (NATIVE, "hash_memory_even", "mem_stream", False)):
+        key = "%s::%s" % ("mem" if path == MEM else "native", name)
+        ctx.inst(key=key, nontrivial=True)
+        loc = path.replace("/repo/", "")
+        try:
+            M = Module(path)
+            p = M.procs[name]
+            loc = "%s:%d" % (loc, p.line)
+            sp = split_loop(p.body)
+            if sp is None:
+                ctx.violation("shape|%s" % key, loc, "%s no longer has exactly one loop" % key)
+                continue
+            pre, loop, suf = sp
+            st0 = [IN("s%d" % i) for i in range(12)] + [IN("wp"), IN("ep")] + deep(14, 40)
+            (st, ev, gd), = PipeFlow(M).run(pre, st0, [], [])
+            (bs, bev, bgd), = PipeFlow(M).run(loop[1], st0, [], [])
+            (ss, sev, sgd), = PipeFlow(M).run(suf, st0, [], [])
+        except (Undecided, MasmError, OSError, KeyError, IndexError, ValueError) as e:
+            ctx.violation("UNANALYSABLE|%s" % key, loc, str(e)[:300])
+            continue
+        bad = None
+        is_guard = lambda g, a, b: isinstance(g, tuple) and g[0] == "neq" and (g[1:] == (a, b) or g[1:] == (b, a))
+        if ev or not is_guard(st[0], IN("wp"), IN("ep")) or st[1:15] != st0[:14]:
+            bad = "the entry guard must be write/start pointer != end pointer on the untouched state (it is %s)" % (st[0],)
+        elif [e[0] for e in bev] != [op, "hperm"] or bev[0][2] != IN("wp"):
+            bad = "the loop body must be one %s at the current pointer followed by one hperm (it performs %s)" % (op, [e[0] for e in bev])
+        elif bev[1][2] != bev[0][3] + tuple(st0[8:12]):
+            bad = "the permutation must absorb the two words just read into the rate and keep the capacity"
+        elif tuple(bs[1:13]) != bev[1][3] or bs[13] != ("add", IN("wp"), 2) or bs[14] != IN("ep") or bs[15] != ("deep", 14):
+            bad = "the loop body must leave [state', pointer + 2, end pointer]"
+        elif not is_guard(bs[0], ("add", IN("wp"), 2), IN("ep")):
+            bad = "the end-of-body guard must compare the advanced pointer with the end pointer (it is %s)" % (bs[0],)
+        elif has_suffix and (sev or ss[:13] != st0[:13] or ss[13] != ("deep", 14)):
+            bad = "the epilogue must remove the end pointer only"
+        elif not has_suffix and (suf or sev):
+            bad = "unexpected epilogue"
+        ctx.oblig(bad is None)
+        if bad:
+            ctx.violation("absorb-loop|%s" % key, loc, "%s: %s" % (key, bad))
+        else:
+            decided.add(name)
+    if len(decided) != 2:
+        return
+    MM = Module(MEM)
+
+    def msgsize(n):
+        k = bin(n).count("1")
+        return max(16, k + (k & 1))
+    # -- (b) pipe_words_to_memory
+    ctx.inst(key="mem::pipe_words_to_memory", nontrivial=True)
+    loc = "stdlib/asm/mem.masm:%d" % MM.procs["pipe_words_to_memory"].line
+    try:
+        paths = PipeFlow(MM, loops=decided).run(MM.procs["pipe_words_to_memory"].body, [IN("n"), IN("wp")] + deep(2, 40), [], [])
+        bad = None
+        for n in list(range(0, 12)) + [1000, 1001]:
+            for wp in (0, 500):
+                env = {"n": n, "wp": wp}
+                live = [(st, ev) for st, ev, gd in paths if all(tev(c, env) == v for c, v in gd)]
+                if len(live) != 1:
+                    bad = "%d paths for num_words=%d" % (len(live), n)
+                    break
+                st, ev = live[0]
+                odd = n & 1
+                end = wp + n - odd
+                L = ev[0] if ev and ev[0][0] == "pipe_loop" else None
+                if L is None or [val(x, env) for x in L[2]] != [0] * 11 + [odd] or val(L[3], env) != wp or val(L[4], env) != end:
+                    bad = "for num_words=%d the double-word loop must start from the state [0 x 11, capacity[0] = %d] with pointers (%d, %d); it gets %s" % (
+                        n, odd, wp, end, None if L is None else ([val(x, env) for x in L[2]][8:], val(L[3], env), val(L[4], env)))
+                elif not odd:
+                    if len(ev) != 1 or tuple(st[:4]) != L[5][4:8] or val(st[4], env) != end or st[5] != ("deep", 2):
+                        bad = "for an even num_words the result must be [digest (word B of the final state), write_ptr'] and nothing else"
+                else:
+                    kinds = [e[0] for e in ev]
+                    if kinds != ["pipe_loop", "adv_loadw", "mem_storew", "hperm"]:
+                        bad = "for an odd num_words the last word must be read from the advice stack, stored and absorbed once (%s)" % kinds
+                    else:
+                        w = ev[1][2]
+                        if val(ev[2][2], env) != end or ev[2][3] != w:
+                            bad = "the last word must be stored at the pointer the loop stopped at (%s)" % (val(ev[2][2], env),)
+                        elif [val(x, env) for x in ev[3][2][:4]] != [0, 0, 0, 1] or ev[3][2][4:8] != w or ev[3][2][8:12] != L[5][8:12]:
+                            bad = "the final permutation must absorb [padding 1,0,0,0 | last word | capacity]"
+                        elif tuple(st[:4]) != ev[3][3][4:8] or val(st[4], env) != end + 1 or st[5] != ("deep", 2):
+                            bad = "for an odd num_words the result must be [digest, write_ptr + num_words]"
+                if bad:
+                    break
+            if bad:
+                break
+    except (Undecided, MasmError, KeyError, IndexError, Fail) as e:
+        bad = None
+        ctx.violation("UNANALYSABLE|mem::pipe_words_to_memory", loc, str(e)[:300])
+    else:
+        ctx.oblig(bad is None)
+        if bad:
+            ctx.violation("pipe-words", loc, "mem::pipe_words_to_memory: " + bad)
+    # -- (c) pipe_preimage_to_memory
+    ctx.inst(key="mem::pipe_preimage_to_memory", nontrivial=True)
+    loc = "stdlib/asm/mem.masm:%d" % MM.procs["pipe_preimage_to_memory"].line
+    try:
+        com = tuple(IN("c%d" % i) for i in range(4))
+        paths = PipeFlow(MM, loops=decided).run(MM.procs["pipe_preimage_to_memory"].body, [IN("n"), IN("wp")] + list(com) + deep(6, 40), [], [])
+        bad = None
+        for st, ev, gd in paths:
+            digest = ev[-2][3][4:8] if len(ev) >= 2 and ev[-2][0] == "hperm" else (ev[-2][5][4:8] if len(ev) >= 2 and ev[-2][0] == "pipe_loop" else None)
+            if not ev or ev[-1][0] != "assert_eqw" or {ev[-1][2], ev[-1][3]} != {digest, com}:
+                bad = "the computed digest must be compared with the commitment (assert_eqw on %s)" % ((ev[-1][2][:1], ev[-1][3][:1]) if ev else None,)
+            elif st[1] != ("deep", 6) or not (isinstance(st[0], tuple) and st[0][0] in ("add", "in", "sub")):
+                bad = "the result must be [write_ptr'] above the rest of the stack"
+            if bad:
+                break
+        if len(paths) != 2:
+            bad = bad or "%d paths" % len(paths)
+    except (Undecided, MasmError, KeyError, IndexError, Fail) as e:
+        ctx.violation("UNANALYSABLE|mem::pipe_preimage_to_memory", loc, str(e)[:300])
+    else:
+        ctx.oblig(bad is None)
+        if bad:
+            ctx.violation("pipe-preimage", loc, "mem::pipe_preimage_to_memory: " + bad)
+    # -- (d) mmr::unpack, (e) mmr::pack
+    try:
+        M = Module(MMR)
+    except (MasmError, OSError) as e:
+        ctx.violation("UNANALYSABLE|mmr", "stdlib/asm/collections/mmr.masm", str(e)[:200])
+        return
+    grid = list(range(0, 70)) + [0xFFFF, 0x1FFFF, 0xFFFFF, 0xFFFFFFFF, 0x80000000]
+    ctx.inst(key="mmr::unpack", nontrivial=True)
+    loc = "stdlib/asm/collections/mmr.masm:%d" % M.procs["unpack"].line
+    try:
+        H = tuple(IN("h%d" % i) for i in range(4))
+        (st, ev, gd), = PipeFlow(M, loops=decided).run(M.procs["unpack"].body, list(H) + [IN("ptr")] + deep(5, 40), [], [])
+        kinds = [e[0] for e in ev]
+        want = ["adv.push_mapval"] + ["adv_push"] * 4 + ["mem_store"] + ["adv_pipe", "hperm"] * 8 + ["pipe_loop", "assert_eqw"]
+        bad = None
+        if kinds != want:
+            bad = "expected the effects %s, found %s" % (want, kinds)
+        elif ev[0][2] != H:
+            bad = "the advice map must be queried with the MMR hash"
+        else:
+            nvar = ev[1][2]          # first value popped from the advice stack
+            pipes = [e for e in ev if e[0] == "adv_pipe"]
+            perms = [e for e in ev if e[0] == "hperm"]
+            L = ev[-2]
+            for n in grid:
+                for ptr in (0, 3000):
+                    env = {"ptr": ptr, nvar: n}
+                    if val(ev[5][2], env) != ptr or ev[5][3] != nvar:
+                        bad = "the first advice value (num_leaves) must be stored at mmr_ptr"
+                    elif [val(e[2], env) for e in pipes] != [ptr + 1 + 2 * i for i in range(8)]:
+                        bad = "the first sixteen words must be piped to mmr_ptr + 1 .. mmr_ptr + 16 (%s)" % [val(e[2], env) - ptr for e in pipes]
+                    elif [val(x, env) for x in perms[0][2][8:12]] != [0, 0, 0, 0] or any(perms[i][2] != pipes[i][3] + (perms[i - 1][3][8:12] if i else perms[0][2][8:12]) for i in range(8)):
+                        bad = "each permutation must absorb the two words just piped on top of the previous capacity (zero at the start)"
+                    elif L[2] != perms[7][3] or val(L[3], env) != ptr + 17 or val(L[4], env) != ptr + 1 + msgsize(n):
+                        bad = "for num_leaves=%d the remaining words must be piped from mmr_ptr + 17 up to mmr_ptr + 1 + %d (got %s .. %s)" % (n, msgsize(n), val(L[3], env) - ptr, val(L[4], env) - ptr)
+                    elif {ev[-1][2], ev[-1][3]} != {L[5][4:8], H}:
+                        bad = "the digest of the piped data must be compared with the MMR hash"
+                    elif st[:3] != deep(5, 8):
+                        bad = "the working cells must be consumed"
+                    if bad:
+                        break
+                if bad:
+                    break
+    except (Undecided, MasmError, KeyError, IndexError, ValueError, Fail) as e:
+        ctx.violation("UNANALYSABLE|mmr::unpack", loc, str(e)[:300])
+    else:
+        ctx.oblig(bad is None)
+        if bad:
+            ctx.violation("mmr-unpack", loc, "mmr::unpack: " + bad)
+    ctx.inst(key="mmr::pack", nontrivial=True)
+    loc = "stdlib/asm/collections/mmr.masm:%d" % M.procs["pack"].line
+    try:
+        (st, ev, gd), = PipeFlow(M, loops=decided).run(M.procs["pack"].body, [IN("ptr")] + deep(1, 40), [], [])
+        kinds = [e[0] for e in ev]
+        bad = None
+        if kinds != ["mem_load", "hash_loop", "adv.insert_mem"]:
+            bad = "expected the effects [mem_load, hash_loop, adv.insert_mem], found %s" % kinds
+        else:
+            nvar = ev[0][3]
+            L = ev[1]
+            for n in grid:
+                for ptr in (0, 3000):
+                    env = {"ptr": ptr, nvar: n}
+                    if val(ev[0][2], env) != ptr:
+                        bad = "num_leaves must be read from mmr_ptr"
+                    elif [val(x, env) for x in L[2]] != [0] * 12 or val(L[3], env) != ptr + 1 or val(L[4], env) != ptr + 1 + msgsize(n):
+                        bad = "for num_leaves=%d the peaks mmr_ptr + 1 .. mmr_ptr + 1 + %d must be hashed from the zero state (got %s .. %s)" % (n, msgsize(n), val(L[3], env) - ptr, val(L[4], env) - ptr)
+                    elif ev[2][2] != L[5][4:8] or val(ev[2][3], env) != ptr or val(ev[2][4], env) != ptr + 1 + msgsize(n):
+                        bad = "adv.insert_mem must be keyed by the digest and cover mmr_ptr .. peaks_end"
+                    elif tuple(st[:4]) != L[5][4:8] or st[4] != ("deep", 1):
+                        bad = "the result must be [HASH] above the rest of the stack"
+                    if bad:
+                        break
+                if bad:
+                    break
+    except (Undecided, MasmError, KeyError, IndexError, ValueError, Fail) as e:
+        ctx.violation("UNANALYSABLE|mmr::pack", loc, str(e)[:300])
+    else:
+        ctx.oblig(bad is None)
+        if bad:
+            ctx.violation("mmr-pack", loc, "mmr::pack: " + bad)
+
+
 def run(ctx, F):
     ctx.trusted += ["vlib/masm.py (MASM parser, positional word model for loc_storew/loc_loadw/mem_loadw/mem_storew, C05's data-movement table)",
                     "loop lemma: a loop whose body only drops words and whose guard is depth != 16 ends with depth 16; a loop that copies mem[r] to mem[w] and increments r, w and a counter from -n to 0 copies n consecutive words"]
@@ -645,4 +862,5 @@ def run(ctx, F):
     ctx.run_rule("C18-R1", "truncate_stack saves the top 16 in locals, loops only dropping words until depth 16, and restores the saved words to their original positions", r1_truncate, F)
     ctx.run_rule("C18-R3", "smt::get / smt::set: on every path each mtree_get / mtree_set / mtree_verify is addressed by (LEAF_DEPTH = 64, K[3], current root) and the returned root is the input root or the one produced by the last mtree_set (provenance interpretation of smt.masm)", r3_smt, F)
     ctx.run_rule("C18-R4", "collections::mmr: the loop helpers (trailing ones, ilog2) decided on bit cubes; get loads the owning peak and asks mtree_get for (depth, index) of the leaf inside it; add stores num_leaves + 1, merges trailing_ones(num_leaves) times (left = last peak, right = element) erasing merged slots, and stores the result as the new last peak", r4_mmr, F)
+    ctx.run_rule("C18-R5", "pipe_double_words_to_memory / hash_memory_even absorb two words per iteration until the pointers meet; pipe_words_to_memory, pipe_preimage_to_memory, mmr::pack and mmr::unpack drive them with the documented state, addresses, padding and digest comparison", r5_pipes, F)
     ctx.run_rule("C18-R2", "mem.masm loops: entry guard and end-of-body guard are the same function of the loop-carried stack; memcopy's body copies one word and advances the three counters; prologue/epilogue as documented", r2_mem_loops, F)
